@@ -158,3 +158,11 @@ void h_init_from_uri_str(void) {
     int r = s_init_from_uri_str(uri);
     if (r == 0) CANARY("parsed"); else CANARY("malformed");
 }
+void h_init_parse(void) {
+    struct aws_uri *uri; struct aws_allocator *a; const struct aws_byte_cursor *text;
+    GHOST_RESET(); g_mc_on = false; g_mc_n = 0; g_pu.calls = 0;
+    g_on = true; g_j = nondet_size_t(); g_src = nondet_u8(); g_k = nondet_size_t(); g_old = nondet_u8();
+    s_states[ON_SCHEME] = s_parse_scheme; s_states[ON_AUTHORITY] = s_parse_authority; s_states[ON_PATH] = s_parse_path; s_states[ON_QUERY_STRING] = s_parse_query_string;
+    int r = aws_uri_init_parse(uri, a, text);
+    if (r == 0) CANARY("parsed"); else CANARY("malformed");
+}
